@@ -8,6 +8,7 @@ CONSTANTS
   TableMethods <- Methods
   TableAbsorbs <- Absorbs
   Emit = FALSE
+  PreFix = FALSE
 INVARIANT KeptIsMinimal
 INVARIANT NeverZeroNeverAboveCap
 INVARIANT ErrorHonest
